@@ -6,8 +6,10 @@ CONSTANTS
   Configs <- AllConfigs
   Lite = TRUE
   Hold = FALSE
+  Burst = FALSE
+  DecidedInLoop = TRUE
   DrainAll = TRUE
   RejectChecksSlot = TRUE
-INVARIANTS TypeOK M1 M1d M1b M1c M2 M3 M4 M4b
+INVARIANTS TypeOK M1 M1d M_dup M1b M1c M2 M3 M4 M4b
 VIEW View
 CHECK_DEADLOCK FALSE
